@@ -1,1 +1,326 @@
-(* Props/C10.v -- stub, to be filled in *)
+(* Props/C10.v -- property theorems only: Theorem / exact lemma / Check (pins the statement) / Print Assumptions.
+
+   What is proved here is about the executable model coq/Model/Roots.v -- ONE definition over a two-sorted
+   arithmetic [RootArith], whose float instance [FloatRA tbl] (IEEE binary64 + the recorded libm calls)
+   follows src/polynomial/mod.rs bit for bit on every case of every check run, and whose abstract-field
+   instance [FieldRA A FL O] carries the closed-form theorems below (O : FieldOps A collects everything
+   left ARBITRARY: the complex square root and power primitives, Cmplx::new, conj, real/imaginary parts,
+   absolute values -- hence every sign choice the code makes --, f64::sqrt, f64::max, EPS, frac[]).
+
+   NOT proved, and false of the code on the recorded classes KF-C10-A/B/C/E: that the floating-point
+   values returned are accurate roots; that Laguerre's iteration converges.  Those halves are covered by
+   the bit-for-bit tie and the failing-input search of driver/c10.py. *)
+From Coq Require Import List Arith.
+From OV Require Import Base.Panic Base.Arith gen.Params Model.Roots
+                       Proofs.Roots Proofs.RootsMore Proofs.RootsSafe Proofs.RootsRing Proofs.RootsField Proofs.RootsExamples.
+Import ListNotations.
+
+(* ================= any arithmetic (floats with any oracle table included) ================= *)
+
+(* poly_solve returns exactly n = |coeffs| - 1 values whenever it returns *)
+Theorem roots_length : forall (RA : RootArith) coeffs refine rs tr,
+  poly_solve RA coeffs refine = Ok (rs, tr) -> length rs = length coeffs - 1.
+Proof. intros RA coeffs refine rs tr. exact (roots_length_lemma RA coeffs refine rs tr). Qed.
+Check roots_length : forall (RA : RootArith) coeffs refine rs tr,
+  poly_solve RA coeffs refine = Ok (rs, tr) -> length rs = length coeffs - 1.
+Print Assumptions roots_length.
+(* (x-1)(x-2)(x-3)(x-4) over f64 with the recorded libm calls, refine = true: 4 values, 8 laguer calls *)
+Example roots_length_nonvacuous :
+  exists rs tr, roots_f64 tbl_1234 p1234 true = Ok (rs, tr) /\ length rs = 4 /\ length tr = 8.
+Proof. exact ex_roots_float. Qed.
+
+(* a degree-0 polynomial is rejected: the guard panic of mod.rs:256 *)
+Theorem degree0_rejected : forall (RA : RootArith) (c : KK RA) refine, poly_solve RA [c] refine = Panic Guard.
+Proof. intros RA c refine. exact (degree0_rejected_lemma RA c refine). Qed.
+Check degree0_rejected : forall (RA : RootArith) (c : KK RA) refine, poly_solve RA [c] refine = Panic Guard.
+Print Assumptions degree0_rejected.
+
+(* laguer makes at most MAXIT - 1 passes, MAXIT = MT * MR regenerated from the source (gen/Params.v) *)
+Theorem laguer_bounded : forall (RA : RootArith) a x l,
+  laguer RA a x = Ok l -> liters l <= LAGUER_MT * LAGUER_MR - 1.
+Proof. intros RA a x l. exact (laguer_bounded_lemma RA a x l). Qed.
+Check laguer_bounded : forall (RA : RootArith) a x l,
+  laguer RA a x = Ok l -> liters l <= LAGUER_MT * LAGUER_MR - 1.
+Print Assumptions laguer_bounded.
+Example laguer_bounded_nonvacuous :
+  exists l, laguer (FloatRA tbl_1234) c1234 cz0 = Ok l
+            /\ lwhy l = Converged /\ liters l = 4.
+Proof. exact ex_laguer_float. Qed.
+
+(* an Exhausted exit (the cause of KF-C10-A) has used every one of the MAXIT - 1 passes *)
+Theorem laguer_exhausted_full : forall (RA : RootArith) a x l,
+  laguer RA a x = Ok l -> lwhy l = Exhausted -> liters l = LAGUER_MT * LAGUER_MR - 1.
+Proof. intros RA a x l. exact (laguer_exhausted_lemma RA a x l). Qed.
+Check laguer_exhausted_full : forall (RA : RootArith) a x l,
+  laguer RA a x = Ok l -> lwhy l = Exhausted -> liters l = LAGUER_MT * LAGUER_MR - 1.
+Print Assumptions laguer_exhausted_full.
+
+
+(* exit Converged => the code's own test |p(x)| <= EPS * err (conv_test: the inner loop at the RETURNED x gives
+   (b, err, _, _) with b.abs() <= err * EPS) held at the returned iterate *)
+Theorem laguer_converged_small : forall (RA : RootArith) a x l,
+  laguer RA a x = Ok l -> lwhy l = Converged -> conv_test RA a (length a - 1) (lx l).
+Proof. intros RA a x l. exact (laguer_converged_lemma RA a x l). Qed.
+Check laguer_converged_small : forall (RA : RootArith) a x l,
+  laguer RA a x = Ok l -> lwhy l = Converged -> conv_test RA a (length a - 1) (lx l).
+Print Assumptions laguer_converged_small.
+(* non-vacuity: laguer_bounded_nonvacuous above is a call that exits Converged *)
+
+(* the number of laguer calls: one per root while deflating (degree >= 4), one more per root when polishing *)
+Theorem trace_length : forall (RA : RootArith) coeffs refine rs tr,
+  poly_solve RA coeffs refine = Ok (rs, tr) ->
+  length tr = (if 3 <? length coeffs - 1 then length coeffs - 1 else 0) + (if refine then length coeffs - 1 else 0).
+Proof. intros RA coeffs refine rs tr. exact (trace_length_lemma RA coeffs refine rs tr). Qed.
+Check trace_length : forall (RA : RootArith) coeffs refine rs tr,
+  poly_solve RA coeffs refine = Ok (rs, tr) ->
+  length tr = (if 3 <? length coeffs - 1 then length coeffs - 1 else 0) + (if refine then length coeffs - 1 else 0).
+Print Assumptions trace_length.
+(* non-vacuity: roots_length_nonvacuous (degree 4, refine: 4 + 4 = 8 calls) *)
+
+(* refine = true: EVERY value of the unpolished run is passed through laguer on the undeflated polynomial, in order,
+   and replaced by the result *)
+Theorem refine_polishes_all : forall (RA : RootArith) coeffs rs tr,
+  poly_solve RA coeffs true = Ok (rs, tr) ->
+  exists rs0 tr0 (ls : list (lres (KK RA))),
+    poly_solve RA coeffs false = Ok (rs0, tr0) /\ length ls = length coeffs - 1 /\ tr = tr0 ++ ls /\
+    forall j, j < length coeffs - 1 ->
+      exists l, nth_error ls j = Some l /\ laguer RA coeffs (nth j rs0 zero) = Ok l /\ nth j rs zero = lx l.
+Proof. intros RA coeffs rs tr. exact (refine_polishes_all_lemma RA coeffs rs tr). Qed.
+Check refine_polishes_all : forall (RA : RootArith) coeffs rs tr,
+  poly_solve RA coeffs true = Ok (rs, tr) ->
+  exists rs0 tr0 (ls : list (lres (KK RA))),
+    poly_solve RA coeffs false = Ok (rs0, tr0) /\ length ls = length coeffs - 1 /\ tr = tr0 ++ ls /\
+    forall j, j < length coeffs - 1 ->
+      exists l, nth_error ls j = Some l /\ laguer RA coeffs (nth j rs0 zero) = Ok l /\ nth j rs zero = lx l.
+Print Assumptions refine_polishes_all.
+
+(* a polished root whose polishing call (entry |tr| - n + j of the trace) exits Converged passes the code's own
+   smallness test ON THE UNDEFLATED POLYNOMIAL *)
+Theorem polished_converged : forall (RA : RootArith) coeffs rs tr j l,
+  poly_solve RA coeffs true = Ok (rs, tr) -> j < length coeffs - 1 ->
+  nth_error tr (length tr - (length coeffs - 1) + j) = Some l -> lwhy l = Converged ->
+  conv_test RA coeffs (length coeffs - 1) (nth j rs zero).
+Proof. intros RA coeffs rs tr j l H. exact (polished_converged_lemma RA coeffs rs tr j l H). Qed.
+Check polished_converged : forall (RA : RootArith) coeffs rs tr j l,
+  poly_solve RA coeffs true = Ok (rs, tr) -> j < length coeffs - 1 ->
+  nth_error tr (length tr - (length coeffs - 1) + j) = Some l -> lwhy l = Converged ->
+  conv_test RA coeffs (length coeffs - 1) (nth j rs zero).
+Print Assumptions polished_converged.
+Example polished_converged_nonvacuous :
+  exists rs tr l, roots_f64 tbl_1234 p1234 true = Ok (rs, tr) /\
+                  nth_error tr (length tr - (length p1234 - 1) + 0) = Some l /\ lwhy l = Converged.
+Proof. exact ex_polish_float. Qed.
+
+(* real-axis snapping: the value is kept, or its imaginary part is replaced by zero *)
+Theorem snap_cases : forall (RA : RootArith) (x : KK RA), snap RA x = x \/ snap RA x = mkk RA (kre RA x) zero.
+Proof. intros RA x. exact (snap_cases_lemma RA x). Qed.
+Check snap_cases : forall (RA : RootArith) (x : KK RA), snap RA x = x \/ snap RA x = mkk RA (kre RA x) zero.
+Print Assumptions snap_cases.
+
+
+(* ================= any commutative ring on KK (nothing assumed of RR, of the oracles, of the tests) ================= *)
+
+(* ev, dv, hv are p(x), p'(x), p''(x)/2: the Taylor expansion at x *)
+Theorem taylor_expansion : forall (RA : RootArith), RingLaws (KK RA) -> forall (l : list (KK RA)) (x t : KK RA),
+  ev RA l (x + t)%A = (ev RA l x + t * dv RA l x + t * t * hv RA l x + t * t * t * tv RA l x t)%A.
+Proof. intros RA RL l x t. exact (taylor_lemma RA RL l x t). Qed.
+Check taylor_expansion : forall (RA : RootArith), RingLaws (KK RA) -> forall (l : list (KK RA)) (x t : KK RA),
+  ev RA l (x + t)%A = (ev RA l x + t * dv RA l x + t * t * hv RA l x + t * t * t * tv RA l x t)%A.
+Print Assumptions taylor_expansion.
+
+(* laguer's inner loop returns (p(x), p'(x), p''(x)/2) and the running error bound
+   errv(a_m) = |a_m|,  errv(c + X Q) = |(c + X Q)(x)| + |x| errv(Q) *)
+Theorem horner_triple : forall (RA : RootArith), RingLaws (KK RA) -> forall a m x b err d f,
+  m + 1 = length a -> horner3 RA a m x = Ok (b, err, d, f) ->
+  b = ev RA a x /\ d = dv RA a x /\ f = hv RA a x /\ err = errv RA a x.
+Proof. intros RA RL a m x b err d f. exact (horner_triple_lemma RA RL a m x b err d f). Qed.
+Check horner_triple : forall (RA : RootArith), RingLaws (KK RA) -> forall a m x b err d f,
+  m + 1 = length a -> horner3 RA a m x = Ok (b, err, d, f) ->
+  b = ev RA a x /\ d = dv RA a x /\ f = hv RA a x /\ err = errv RA a x.
+Print Assumptions horner_triple.
+Example horner_triple_nonvacuous :
+  RingLaws (KK (RA7 f0)) /\ exists b e d f, horner3 (RA7 f0) [f1; f2; f3; f1] 3 f2 = Ok (b, e, d, f).
+Proof. split; [exact A7_RingLaws | exact ex_horner7]. Qed.
+
+
+(* the meaning of a Converged exit: |p(x)| <= EPS * errv(p, x) at the returned iterate (the code's own test, with the
+   values the inner loop computes identified as p(x) and the running error bound) *)
+Theorem converged_means_small : forall (RA : RootArith), RingLaws (KK RA) -> forall a x l,
+  laguer RA a x = Ok l -> lwhy l = Converged ->
+  leb (kabs RA (ev RA a (lx l))) (mul (errv RA a (lx l)) (reps RA)) = true.
+Proof. intros RA RL a x l. exact (laguer_converged_meaning RA RL a x l). Qed.
+Check converged_means_small : forall (RA : RootArith), RingLaws (KK RA) -> forall a x l,
+  laguer RA a x = Ok l -> lwhy l = Converged ->
+  leb (kabs RA (ev RA a (lx l))) (mul (errv RA a (lx l)) (reps RA)) = true.
+Print Assumptions converged_means_small.
+
+(* ... and for a polished value: the test is on the UNDEFLATED polynomial *)
+Theorem polished_converged_small : forall (RA : RootArith), RingLaws (KK RA) -> forall coeffs rs tr j l,
+  poly_solve RA coeffs true = Ok (rs, tr) -> j < length coeffs - 1 ->
+  nth_error tr (length tr - (length coeffs - 1) + j) = Some l -> lwhy l = Converged ->
+  leb (kabs RA (ev RA coeffs (nth j rs zero))) (mul (errv RA coeffs (nth j rs zero)) (reps RA)) = true.
+Proof. intros RA RL coeffs rs tr j l. exact (polished_converged_meaning RA RL coeffs rs tr j l). Qed.
+Check polished_converged_small : forall (RA : RootArith), RingLaws (KK RA) -> forall coeffs rs tr j l,
+  poly_solve RA coeffs true = Ok (rs, tr) -> j < length coeffs - 1 ->
+  nth_error tr (length tr - (length coeffs - 1) + j) = Some l -> lwhy l = Converged ->
+  leb (kabs RA (ev RA coeffs (nth j rs zero))) (mul (errv RA coeffs (nth j rs zero)) (reps RA)) = true.
+Print Assumptions polished_converged_small.
+(* non-vacuity over GF(7) (EPS = 0, so Converged means p(x) = 0 exactly): x^4, refine = true *)
+Example polished_converged_small_nonvacuous :
+  RingLaws (KK RA7r) /\
+  exists rs tr l, poly_solve RA7r [f0; f0; f0; f0; f1] true = Ok (rs, tr) /\
+                  nth_error tr (length tr - 4 + 0) = Some l /\ lwhy l = Converged.
+Proof. split; [exact A7_RingLaws | exact ex_polish7]. Qed.
+
+(* forward deflation: p(t) = (t - x) q(t) + p(x), everything above index j untouched *)
+Theorem deflate_spec : forall (RA : RootArith), RingLaws (KK RA) -> forall ad j x ad' r,
+  deflate RA ad j x = Ok (ad', r) ->
+  length ad' = length ad /\ skipn (j + 1) ad' = skipn (j + 1) ad /\
+  (forall t, ev RA (firstn (j + 2) ad) t = ((t - x) * ev RA (firstn (j + 1) ad') t + r)%A) /\
+  r = ev RA (firstn (j + 2) ad) x.
+Proof. intros RA RL ad j x ad' r. exact (deflate_spec_lemma RA RL ad j x ad' r). Qed.
+Check deflate_spec : forall (RA : RootArith), RingLaws (KK RA) -> forall ad j x ad' r,
+  deflate RA ad j x = Ok (ad', r) ->
+  length ad' = length ad /\ skipn (j + 1) ad' = skipn (j + 1) ad /\
+  (forall t, ev RA (firstn (j + 2) ad) t = ((t - x) * ev RA (firstn (j + 1) ad') t + r)%A) /\
+  r = ev RA (firstn (j + 2) ad) x.
+Print Assumptions deflate_spec.
+Example deflate_spec_nonvacuous :
+  RingLaws (KK (RA7 f0)) /\ exists ad' r, deflate (RA7 f0) [f1; f2; f3; f1] 2 f2 = Ok (ad', r).
+Proof. split; [exact A7_RingLaws | exact ex_deflate7]. Qed.
+
+
+(* the whole deflation phase (degree >= 4, no refinement): p is recomposed EXACTLY from the values found (in the order
+   found, index n-1 first; each is the snapped result of one laguer call) and one residual per value,
+     p(t) = (t - x_{n-1}) ((t - x_{n-2}) ( ... ((t - x_0) a_n + r_0) ... ) + r_{n-2}) + r_{n-1},
+   so if every value is an exact root of its own deflated polynomial (all residuals 0) then p(t) = a_n prod (t - x_j).
+   In floating point the residuals are not 0 and nothing bounds them: that is the recorded finding KF-C10-C. *)
+Theorem deflation_recomposes : forall (RA : RootArith), RingLaws (KK RA) -> forall coeffs rs tr,
+  3 < length coeffs - 1 -> poly_solve RA coeffs false = Ok (rs, tr) ->
+  exists L : list (KK RA * KK RA),
+    map fst L = rev rs /\ map fst L = map (fun l => snap RA (lx l)) tr /\
+    (forall t, ev RA coeffs t = comp RA L (nth (length coeffs - 1) coeffs zero) t) /\
+    (Forall (fun xr => snd xr = zero) L ->
+     forall t, ev RA coeffs t = (linprod RA (rev rs) t * nth (length coeffs - 1) coeffs zero)%A).
+Proof. intros RA RL coeffs rs tr. exact (deflation_recomposes_lemma RA RL coeffs rs tr). Qed.
+Check deflation_recomposes : forall (RA : RootArith), RingLaws (KK RA) -> forall coeffs rs tr,
+  3 < length coeffs - 1 -> poly_solve RA coeffs false = Ok (rs, tr) ->
+  exists L : list (KK RA * KK RA),
+    map fst L = rev rs /\ map fst L = map (fun l => snap RA (lx l)) tr /\
+    (forall t, ev RA coeffs t = comp RA L (nth (length coeffs - 1) coeffs zero) t) /\
+    (Forall (fun xr => snd xr = zero) L ->
+     forall t, ev RA coeffs t = (linprod RA (rev rs) t * nth (length coeffs - 1) coeffs zero)%A).
+Print Assumptions deflation_recomposes.
+(* x^4 over GF(7) *)
+Example deflation_recomposes_nonvacuous :
+  RingLaws (KK RA7r) /\
+  exists tr, poly_solve RA7r [f0; f0; f0; f0; f1] false = Ok ([f0; f0; f0; f0], tr) /\ length tr = 4.
+Proof. split; [exact A7_RingLaws | exact ex_deflation7]. Qed.
+
+(* ================= the closed forms over an abstract field ================= *)
+
+(* degree 1: the value returned is the root *)
+Theorem linear_root : forall (A : Arith) (FL : FieldLaws A) (O : FieldOps A) (c0 c1 : A),
+  c1 <> zero -> exists r, poly_solve (FieldRA A FL O) [c0; c1] false = Ok ([r], []) /\ (c1 * r + c0 = zero)%A.
+Proof. intros A FL O c0 c1 H. exact (linear_root_lemma A FL O c0 c1 false H eq_refl). Qed.
+Check linear_root : forall (A : Arith) (FL : FieldLaws A) (O : FieldOps A) (c0 c1 : A),
+  c1 <> zero -> exists r, poly_solve (FieldRA A FL O) [c0; c1] false = Ok ([r], []) /\ (c1 * r + c0 = zero)%A.
+Print Assumptions linear_root.
+Example linear_root_nonvacuous : (f3 : A7) <> zero.
+Proof. exact ex_linear7. Qed.
+
+(* degree 2: whatever sign the code chooses (f_re, f_conj, leb are arbitrary), if the square root primitive
+   returned a square root of the discriminant and q <> 0 (r0 = q/a <> 0), the two values are THE two roots *)
+Theorem quadratic_factors : forall (A : Arith) (FL : FieldLaws A) (O : FieldOps A) (a b c r0 r1 : A),
+  (f_sqrt A O (b * b - a * natA A 4 * c) * f_sqrt A O (b * b - a * natA A 4 * c) = b * b - a * natA A 4 * c)%A ->
+  natA A 2 <> zero -> a <> zero ->
+  quadratic_solve (FieldRA A FL O) a b c = Ok [r0; r1] -> r0 <> zero ->
+  forall x : A, (a * x * x + b * x + c = a * (x - r0) * (x - r1))%A.
+Proof. intros A FL O a b c r0 r1. exact (quadratic_factors_lemma A FL O a b c r0 r1). Qed.
+Check quadratic_factors : forall (A : Arith) (FL : FieldLaws A) (O : FieldOps A) (a b c r0 r1 : A),
+  (f_sqrt A O (b * b - a * natA A 4 * c) * f_sqrt A O (b * b - a * natA A 4 * c) = b * b - a * natA A 4 * c)%A ->
+  natA A 2 <> zero -> a <> zero ->
+  quadratic_solve (FieldRA A FL O) a b c = Ok [r0; r1] -> r0 <> zero ->
+  forall x : A, (a * x * x + b * x + c = a * (x - r0) * (x - r1))%A.
+Print Assumptions quadratic_factors.
+(* x^2 + 4x + 2 = (x-1)(x-2) over GF(7) *)
+Example quadratic_factors_nonvacuous :
+  let a : A7 := f1 in let b : A7 := f4 in let c : A7 := f2 in
+  ((f1 : A7) * f1 = b * b - a * natA A7 4 * c)%A /\ natA A7 2 <> zero /\ a <> zero /\
+  quadratic_solve (RA7 f1) a b c = Ok [f1; f2] /\ (f1 : A7) <> zero.
+Proof. exact ex_quadratic7. Qed.
+
+(* degree 2, the repaired branch (fix 1e066e6): b = c = 0 gives the double root 0; the legacy code panics
+   (exact arithmetic) / returns NaN (floats: Legacy/C10Refuted.v) *)
+Theorem quadratic_q0 : forall (A : Arith) (FL : FieldLaws A) (O : FieldOps A) (a : A),
+  (f_sqrt A O zero * f_sqrt A O zero = zero)%A -> natA A 2 <> zero -> a <> zero ->
+  quadratic_solve (FieldRA A FL O) a zero zero = Ok [zero; zero] /\
+  quadratic_solve_gen (FieldRA A FL O) false a zero zero = Panic DivZero.
+Proof. intros A FL O a. exact (quadratic_q0_lemma A FL O a). Qed.
+Check quadratic_q0 : forall (A : Arith) (FL : FieldLaws A) (O : FieldOps A) (a : A),
+  (f_sqrt A O zero * f_sqrt A O zero = zero)%A -> natA A 2 <> zero -> a <> zero ->
+  quadratic_solve (FieldRA A FL O) a zero zero = Ok [zero; zero] /\
+  quadratic_solve_gen (FieldRA A FL O) false a zero zero = Panic DivZero.
+Print Assumptions quadratic_q0.
+
+(* degree 2 never panics on a nonzero leading coefficient *)
+Theorem quadratic_total : forall (A : Arith) (FL : FieldLaws A) (O : FieldOps A) (a b c : A),
+  a <> zero -> exists r0 r1, quadratic_solve (FieldRA A FL O) a b c = Ok [r0; r1].
+Proof. intros A FL O a b c. exact (quadratic_total_lemma A FL O a b c). Qed.
+Check quadratic_total : forall (A : Arith) (FL : FieldLaws A) (O : FieldOps A) (a b c : A),
+  a <> zero -> exists r0 r1, quadratic_solve (FieldRA A FL O) a b c = Ok [r0; r1].
+Print Assumptions quadratic_total.
+
+(* degree 3 (Cardano), for EITHER sign test (cs = true: the repaired code, fix eb1fb9c; cs = false: legacy) and for
+   the triple-root branch: if the sqrt primitive returned a square root of the radicand, the pow primitive a cube
+   root of `base`, and the constant (-0.5, sqrt(3)/2) is a primitive cube root of unity, then whenever the function
+   returns (no division by k = 0), the three values are THE three roots *)
+Theorem cubic_factors : forall (A : Arith) (FL : FieldLaws A) (O : FieldOps A) (cs : bool) (a b c d r0 r1 r2 : A),
+  (f_sqrt A O (cubic_rad A FL O a b c d) * f_sqrt A O (cubic_rad A FL O a b c d) = cubic_rad A FL O a b c d)%A ->
+  cube A (f_pow A O (cubic_base A FL O cs a b c d) (f_mk A O (one * fl_inv A FL (natA A 3))%A zero))
+    = cubic_base A FL O cs a b c d ->
+  (let u := f_mk A O (- fl_inv A FL (one + one))%A (f_rsqrt A O (natA A 3) * fl_inv A FL (natA A 2))%A in
+   u * u + u + one = zero)%A ->
+  natA A 2 <> zero -> natA A 3 <> zero -> a <> zero ->
+  cubic_solve_gen (FieldRA A FL O) cs a b c d = Ok [r0; r1; r2] ->
+  forall x : A, (a * x * x * x + b * x * x + c * x + d = a * (x - r0) * (x - r1) * (x - r2))%A.
+Proof. intros A FL O cs a b c d r0 r1 r2. exact (cubic_factors_lemma A FL O cs a b c d r0 r1 r2). Qed.
+Check cubic_factors : forall (A : Arith) (FL : FieldLaws A) (O : FieldOps A) (cs : bool) (a b c d r0 r1 r2 : A),
+  (f_sqrt A O (cubic_rad A FL O a b c d) * f_sqrt A O (cubic_rad A FL O a b c d) = cubic_rad A FL O a b c d)%A ->
+  cube A (f_pow A O (cubic_base A FL O cs a b c d) (f_mk A O (one * fl_inv A FL (natA A 3))%A zero))
+    = cubic_base A FL O cs a b c d ->
+  (let u := f_mk A O (- fl_inv A FL (one + one))%A (f_rsqrt A O (natA A 3) * fl_inv A FL (natA A 2))%A in
+   u * u + u + one = zero)%A ->
+  natA A 2 <> zero -> natA A 3 <> zero -> a <> zero ->
+  cubic_solve_gen (FieldRA A FL O) cs a b c d = Ok [r0; r1; r2] ->
+  forall x : A, (a * x * x * x + b * x * x + c * x + d = a * (x - r0) * (x - r1) * (x - r2))%A.
+Print Assumptions cubic_factors.
+(* x^3 + 4x + 5 = (x-6)^2 (x-2) over GF(7) (u = 2 is a primitive cube root of unity there): Cardano branch *)
+Example cubic_factors_nonvacuous :
+  let a : A7 := f1 in let b : A7 := f0 in let c : A7 := f4 in let d : A7 := f5 in
+  cubic_rad A7 A7_FieldLaws (O7 f0) a b c d = f0 /\
+  cubic_base A7 A7_FieldLaws (O7 f0) true a b c d = f1 /\
+  (let u : A7 := f2 in u * u + u + one = zero)%A /\
+  natA A7 2 <> zero /\ natA A7 3 <> zero /\ a <> zero /\
+  cubic_solve (RA7 f0) a b c d = Ok [f6; f6; f2].
+Proof. exact ex_cubic7. Qed.
+(* 2 (x-1)^3 over GF(7): the triple-root branch *)
+Example cubic_factors_triple_nonvacuous : cubic_solve (RA7 f0) (f2 : A7) f1 f6 f5 = Ok [f1; f1; f1].
+Proof. exact ex_triple7. Qed.
+
+(* ================= the float instance ================= *)
+(* (last in the file: its Print Assumptions lists Coq's primitive-float constants, which are not axioms of this development) *)
+(* index safety of the float instance, whatever the three libm-backed primitives return (ANY oracle table), for every
+   nonempty coefficient list and both refinement settings: no Vec access of poly_solve / laguer / the deflation is out
+   of bounds (frac[iter / MT] included: frac[] has MR + 1 entries, regenerated from the source) and no usize subtraction
+   underflows.  With roots_length / degree0_rejected: the ONLY panic of Polynomial::roots is the degree-0 guard
+   (the empty coefficient list underflows in `coeffs.size() - 1`: empty_rejected_lemma). *)
+Theorem float_roots_memory_safe : forall (tbl : list PrimFloat.float) coeffs refine,
+  coeffs <> [] ->
+  poly_solve (FloatRA tbl) coeffs refine <> Panic Index /\ poly_solve (FloatRA tbl) coeffs refine <> Panic Underflow.
+Proof. intros tbl coeffs refine. exact (float_roots_memory_safe_both tbl coeffs refine). Qed.
+Check float_roots_memory_safe : forall (tbl : list PrimFloat.float) coeffs refine,
+  coeffs <> [] ->
+  poly_solve (FloatRA tbl) coeffs refine <> Panic Index /\ poly_solve (FloatRA tbl) coeffs refine <> Panic Underflow.
+Print Assumptions float_roots_memory_safe.
+
